@@ -17,11 +17,106 @@ import GilVerif.Model.C03
 import Mathlib.Tactic.Ring
 import Mathlib.Tactic.Linarith
 import Mathlib.Tactic.LinearCombination
+import Mathlib.Tactic.SplitIfs
 
 namespace GilVerif.Props.C03
 open GilVerif.Gen.C03 GilVerif.Geom GilVerif.Model.C03
 
 /-! ## Part A -- generated kernels -/
+
+/-! ### the generated kernels, in reference form
+
+Each `C03_kernel_*` says: what the translator produced from the *current* header equals this
+fixed expression.  They are proven by a form-independent tactic (zeta-reduce, split the
+conditionals, normalise ring expressions), so a harmless rewrite of the C++ (reordered operands,
+a named temporary, a flipped comparison) still proves, while any change of behaviour makes exactly
+the kernel's theorem fail.  All other theorems go through these equations. -/
+
+macro "kernel_eq" : tactic =>
+  `(tactic| first
+      | rfl
+      | ((try simp only []) <;> (try split_ifs) <;>
+          first | rfl | (exfalso; omega) | (ring_nf; done) | (ext <;> (try simp only []) <;> ring1))
+      | ((try simp only []) <;> (try ring_nf) <;> (try split_ifs) <;>
+          first | rfl | (exfalso; omega) | (ring_nf; done) | (ext <;> (try simp only []) <;> ring1)))
+
+theorem C03_kernel_it2d_advance (d x y w px py : Int) : it2d_advance d x y w px py =
+    if w = 0 then (x, y, px, py)
+    else if x + d ≥ 0 then
+      (x + (Int.tmod (x + d) w - x), y + Int.tdiv (x + d) w, px + (Int.tmod (x + d) w - x), py + Int.tdiv (x + d) w)
+    else
+      (x + (Int.tmod (x + d * (1 - w)) w - x), y + Int.tdiv (-(w - x - d - 1)) w,
+       px + (Int.tmod (x + d * (1 - w)) w - x), py + Int.tdiv (-(w - x - d - 1)) w) := by
+  unfold it2d_advance; kernel_eq
+
+theorem C03_kernel_it2d_increment (x y w px py : Int) : it2d_increment x y w px py =
+    if x + 1 ≥ w then (0, y + 1, px + 1 - w, py + 1) else (x + 1, y, px + 1, py) := by
+  unfold it2d_increment; kernel_eq
+
+theorem C03_kernel_it2d_decrement (x y w px py : Int) : it2d_decrement x y w px py =
+    if x - 1 < 0 then (w - 1, y - 1, px - 1 + w, py - 1) else (x - 1, y, px - 1, py) := by
+  unfold it2d_decrement; kernel_eq
+
+theorem C03_kernel_it2d_distance_to (x y w x2 y2 : Int) : it2d_distance_to x y w x2 y2 =
+    if w = 0 then 0 else (y2 - y) * w + (x2 - x) := by
+  unfold it2d_distance_to; kernel_eq
+
+theorem C03_kernel_loc_offset (x y r p : Int) : loc_offset x y r p = y * r + x * p := by
+  unfold loc_offset; kernel_eq
+
+theorem C03_kernel_loc_is_1d_traversable (w r p : Int) : loc_is_1d_traversable w r p = if r - p * w = 0 then 1 else 0 := by
+  unfold loc_is_1d_traversable; kernel_eq
+
+theorem C03_kernel_loc_y_distance_to (dist xd r p : Int) : loc_y_distance_to dist xd r p = Int.tdiv (dist - p * xd) r := by
+  unfold loc_y_distance_to; kernel_eq
+
+theorem C03_kernel_step_advance (it d s : Int) : step_advance it d s = it + d * s := by
+  unfold step_advance; kernel_eq
+
+theorem C03_kernel_step_difference (dist s : Int) : step_difference dist s = Int.tdiv dist s := by
+  unfold step_difference; kernel_eq
+
+theorem C03_kernel_step_lt (s a b : Int) :
+    step_lt s a b = (if s > 0 then (if a < b then 1 else 0) else (if a > b then 1 else 0)) := by
+  unfold step_lt; kernel_eq
+
+theorem C03_kernel_step_gt (s a b : Int) :
+    step_gt s a b = (if s > 0 then (if a > b then 1 else 0) else (if a < b then 1 else 0)) := by
+  unfold step_gt; kernel_eq
+
+theorem C03_kernel_step_le (s a b : Int) :
+    step_le s a b = (if s > 0 then (if a ≤ b then 1 else 0) else (if a ≥ b then 1 else 0)) := by
+  unfold step_le; kernel_eq
+
+theorem C03_kernel_step_ge (s a b : Int) :
+    step_ge s a b = (if s > 0 then (if a ≥ b then 1 else 0) else (if a ≤ b then 1 else 0)) := by
+  unfold step_ge; kernel_eq
+
+theorem C03_kernel_bit_increment (b o s : Int) : bit_increment b o s = (b + Int.tdiv (o + s) 8, Int.tmod (o + s) 8) := by
+  unfold bit_increment; kernel_eq
+
+/-- `bit_range::bit_advance`, including the narrowing of `_bit_offset + num_bits` to `int` -/
+theorem C03_kernel_bit_advance (b o n : Int) : bit_advance b o n =
+    if Int.tmod ((o + n + 2147483648) % 4294967296 - 2147483648) 8 < 0 then
+      (b + Int.tdiv ((o + n + 2147483648) % 4294967296 - 2147483648) 8 - 1, Int.tmod ((o + n + 2147483648) % 4294967296 - 2147483648) 8 + 8)
+    else
+      (b + Int.tdiv ((o + n + 2147483648) % 4294967296 - 2147483648) 8, Int.tmod ((o + n + 2147483648) % 4294967296 - 2147483648) 8) := by
+  unfold bit_advance; kernel_eq
+
+theorem C03_kernel_bit_distance_to (b o b2 o2 : Int) : bit_distance_to b o b2 o2 = (b2 - b) * 8 + o2 - o := by
+  unfold bit_distance_to; kernel_eq
+
+theorem C03_kernel_bitit_advance_bits (d s : Int) : bitit_advance_bits d s = d * s := by
+  unfold bitit_advance_bits; kernel_eq
+
+theorem C03_kernel_bitit_distance (bits s : Int) : bitit_distance bits s = Int.tdiv bits s := by
+  unfold bitit_distance; kernel_eq
+
+theorem C03_kernel_pos_advance (p d s : Int) : pos_advance p d s = p + d * s := by
+  unfold pos_advance; kernel_eq
+
+theorem C03_kernel_pos_distance (p q s : Int) : pos_distance p q s = Int.tdiv (q - p) s := by
+  unfold pos_distance; kernel_eq
 
 /-- uniqueness of (row, column) for a 1-D index -/
 private theorem divmod_unique {w a b p q : Int} (hw : 0 < w) (ha : 0 ≤ a) (ha' : a < w) (hb : 0 ≤ b) (hb' : b < w)
@@ -49,7 +144,7 @@ theorem C03_advance_spec (d x y w px py : Int) (hw : 0 < w) (hx : 0 ≤ x) (hx' 
   have hmod0 := Int.emod_nonneg (x + d) hw0
   have hmod1 := Int.emod_lt_of_pos (x + d) hw
   have hdm := Int.mul_ediv_add_emod (x + d) w
-  unfold it2d_advance
+  rw [C03_kernel_it2d_advance]
   simp only [hw0, if_false]
   by_cases hnn : x + d ≥ 0
   · simp only [hnn, if_true]
@@ -90,7 +185,7 @@ example : it2d_advance 5 2 1 3 0 0 = (1, 3, 0 + (1 - 2), 0 + (3 - 1)) :=
 /-- default-constructed / zero-width views: `advance` is the identity and every distance is 0 -/
 theorem C03_empty_width (d x y px py x2 y2 : Int) :
     it2d_advance d x y 0 px py = (x, y, px, py) ∧ it2d_distance_to x y 0 x2 y2 = 0 := by
-  unfold it2d_advance it2d_distance_to; simp
+  rw [C03_kernel_it2d_advance, C03_kernel_it2d_distance_to]; simp
 
 /-- `it + 0 == it` for every width (so `end() == begin()` when `w*h = 0`, see `C03_empty`) -/
 theorem C03_advance_zero (x y w px py : Int) (hw : 0 ≤ w) (hx : 0 ≤ x) (hx' : x < w ∨ w = 0) :
@@ -108,38 +203,34 @@ theorem C03_empty (w h px py : Int) (hw : 0 ≤ w) (he : w = 0 ∨ h = 0) :
   have hz : w * h = 0 := by rcases he with h | h <;> simp [h]
   have e := C03_advance_zero 0 0 w px py hw (by omega) (by omega)
   rw [hz, e]; refine ⟨rfl, ?_⟩
-  unfold it2d_distance_to; simp
+  rw [C03_kernel_it2d_distance_to]; simp
 
 /-- `++it` is `it + 1` (row carry included) -/
 theorem C03_increment_is_advance (x y w px py : Int) (hw : 0 < w) (hx : 0 ≤ x) (hx' : x < w) :
     it2d_increment x y w px py = it2d_advance 1 x y w px py := by
   by_cases hc : x + 1 < w
   · rw [C03_advance_closed 1 x y w px py (x + 1) y hw hx hx' (by omega) hc (by ring)]
-    unfold it2d_increment; simp only []
-    rw [if_neg (by omega)]; ext <;> simp only [] <;> omega
+    rw [C03_kernel_it2d_increment, if_neg (by omega)]; ext <;> simp only [] <;> omega
   · rw [C03_advance_closed 1 x y w px py 0 (y + 1) hw hx hx' (by omega) hw (by have : x = w - 1 := by omega
                                                                                subst this; ring)]
-    unfold it2d_increment; simp only []
-    rw [if_pos (by omega)]; ext <;> simp only [] <;> omega
+    rw [C03_kernel_it2d_increment, if_pos (by omega)]; ext <;> simp only [] <;> omega
 
 /-- `--it` is `it - 1` -/
 theorem C03_decrement_is_advance (x y w px py : Int) (hw : 0 < w) (hx : 0 ≤ x) (hx' : x < w) :
     it2d_decrement x y w px py = it2d_advance (-1) x y w px py := by
   by_cases hc : 0 ≤ x - 1
   · rw [C03_advance_closed (-1) x y w px py (x - 1) y hw hx hx' hc (by omega) (by ring)]
-    unfold it2d_decrement; simp only []
-    rw [if_neg (by omega)]; ext <;> simp only [] <;> omega
+    rw [C03_kernel_it2d_decrement, if_neg (by omega)]; ext <;> simp only [] <;> omega
   · have : x = 0 := by omega
     subst this
     rw [C03_advance_closed (-1) 0 y w px py (w - 1) (y - 1) hw hx hx' (by omega) (by omega) (by ring)]
-    unfold it2d_decrement; simp only []
-    rw [if_pos (by omega)]; ext <;> simp only [] <;> omega
+    rw [C03_kernel_it2d_decrement, if_pos (by omega)]; ext <;> simp only [] <;> omega
 
 /-- `--(++it) == it` and `++(--it) == it`, coordinates and locator displacement alike -/
 theorem C03_inc_dec (x y w px py : Int) (hx : 0 ≤ x) (hx' : x < w) :
     (let r := it2d_increment x y w px py; it2d_decrement r.1 r.2.1 w r.2.2.1 r.2.2.2) = (x, y, px, py)
     ∧ (let r := it2d_decrement x y w px py; it2d_increment r.1 r.2.1 w r.2.2.1 r.2.2.2) = (x, y, px, py) := by
-  unfold it2d_increment it2d_decrement
+  simp only [C03_kernel_it2d_increment, C03_kernel_it2d_decrement]
   constructor
   · by_cases hc : x + 1 ≥ w
     · simp only [hc, if_true]; rw [if_pos (by omega)]; ext <;> simp only [] <;> omega
@@ -164,8 +255,7 @@ theorem C03_distance_advance (n x y w px py : Int) (hw : 0 < w) (hx : 0 ≤ x) (
     it2d_distance_to x y w (it2d_advance n x y w px py).1 (it2d_advance n x y w px py).2.1 = n
     ∧ it2d_distance_to (it2d_advance n x y w px py).1 (it2d_advance n x y w px py).2.1 w x y = -n := by
   obtain ⟨a0, a1, a2, a3, a4⟩ := C03_advance_spec n x y w px py hw hx hx'
-  unfold it2d_distance_to
-  simp only [show w ≠ 0 by omega, if_false]
+  simp only [C03_kernel_it2d_distance_to, show w ≠ 0 by omega, if_false]
   constructor
   · linear_combination a2
   · linear_combination (-1 : Int) * a2
@@ -176,8 +266,7 @@ theorem C03_order (x1 y1 x2 y2 w : Int) (hw : 0 < w) :
     it2d_distance_to x1 y1 w x2 y2 = (y2 * w + x2) - (y1 * w + x1)
     ∧ it2d_distance_to x1 y1 w x2 y2 = -(it2d_distance_to x2 y2 w x1 y1)
     ∧ (it2d_distance_to x1 y1 w x2 y2 > 0 ↔ y1 * w + x1 < y2 * w + x2) := by
-  unfold it2d_distance_to
-  simp only [show w ≠ 0 by omega, if_false]
+  simp only [C03_kernel_it2d_distance_to, show w ≠ 0 by omega, if_false]
   refine ⟨by ring, by ring, ?_⟩
   constructor <;> intro h <;> nlinarith
 
@@ -185,7 +274,7 @@ theorem C03_order (x1 y1 x2 y2 w : Int) (hw : 0 < w) :
 theorem C03_end_minus_begin (w h px py : Int) (hw : 0 ≤ w) :
     it2d_distance_to 0 0 w (it2d_advance (w * h) 0 0 w px py).1 (it2d_advance (w * h) 0 0 w px py).2.1 = w * h := by
   by_cases h0 : w = 0
-  · subst h0; simp [it2d_distance_to]
+  · subst h0; simp [C03_kernel_it2d_distance_to]
   · exact (C03_distance_advance (w * h) 0 0 w px py (by omega) (by omega) (by omega)).1
 
 /-! ### memory-based locator kernels -/
@@ -194,7 +283,7 @@ theorem C03_end_minus_begin (w h px py : Int) (hw : 0 ≤ w) :
     pixel of the next row: `addr(w, y) = addr(0, y+1)` -/
 theorem C03_1d_traversable (v : View) (y : Int) :
     loc_is_1d_traversable v.w v.ys v.xs = 1 ↔ v.addr v.w y = v.addr 0 (y + 1) := by
-  unfold loc_is_1d_traversable View.addr
+  rw [C03_kernel_loc_is_1d_traversable]; unfold View.addr
   constructor
   · intro h
     have : v.ys - v.xs * v.w = 0 := by
@@ -208,8 +297,7 @@ theorem C03_1d_traversable (v : View) (y : Int) :
     the same view (row_size ≠ 0) -/
 theorem C03_y_distance (v : View) (x1 y1 x2 y2 : Int) (hys : v.ys ≠ 0) :
     loc_y_distance_to (v.addr x2 y2 - v.addr x1 y1) (x2 - x1) v.ys v.xs = y2 - y1 := by
-  unfold loc_y_distance_to View.addr
-  simp only []
+  rw [C03_kernel_loc_y_distance_to]; unfold View.addr
   have : v.base + y2 * v.ys + x2 * v.xs - (v.base + y1 * v.ys + x1 * v.xs) - v.xs * (x2 - x1) = (y2 - y1) * v.ys := by ring
   rw [this, Int.mul_tdiv_cancel _ hys]
 
@@ -238,8 +326,7 @@ theorem C03_step_laws (p n m s : Int) (hs : s ≠ 0) :
     ∧ (step_gt s p (step_advance p n s) = 1 ↔ n < 0)
     ∧ (step_le s p (step_advance p n s) = 1 ↔ n ≥ 0)
     ∧ (step_ge s p (step_advance p n s) = 1 ↔ n ≤ 0) := by
-  unfold step_advance step_difference step_lt step_gt step_le step_ge
-  simp only []
+  simp only [C03_kernel_step_advance, C03_kernel_step_difference, C03_kernel_step_lt, C03_kernel_step_gt, C03_kernel_step_le, C03_kernel_step_ge]
   have e1 : p + n * s - p = n * s := by ring
   have e2 : p - (p + n * s) = (-n) * s := by ring
   have hp := @mul_pos_iff_of_ne n s hs
@@ -289,7 +376,7 @@ theorem C03_nested_step_order_reversed (k : Kind) (hv : k.virt = false) (hx : k.
     itCmp k true xs ys a b = [step_gt ys a b, step_lt ys a b, step_ge ys a b, step_le ys a b] := by
   have hk : ∀ p, xKey k xs p = -p := by intro p; simp [xKey, hx, hxs]
   simp only [itCmp, hv, hk, Bool.false_eq_true, if_false, if_true]
-  unfold step_lt step_gt step_le step_ge
+  simp only [C03_kernel_step_lt, C03_kernel_step_gt, C03_kernel_step_le, C03_kernel_step_ge]
   have e1 : (-a < -b) ↔ (a > b) := by omega
   have e2 : (-a > -b) ↔ (a < b) := by omega
   have e3 : (-a ≤ -b) ↔ (a ≥ b) := by omega
@@ -307,8 +394,7 @@ theorem C03_position_laws (p n m s : Int) (hs : s ≠ 0) :
     pos_advance (pos_advance p n s) m s = pos_advance p (n + m) s
     ∧ pos_distance p (pos_advance p n s) s = n
     ∧ pos_advance (pos_advance p 1 s) (-1) s = p := by
-  unfold pos_advance pos_distance
-  simp only []
+  simp only [C03_kernel_pos_advance, C03_kernel_pos_distance]
   have e1 : p + n * s - p = n * s := by ring
   exact ⟨by ring, by rw [e1, Int.mul_tdiv_cancel _ hs], by ring⟩
 
@@ -321,10 +407,9 @@ theorem C03_bit_advance_spec (b o n : Int)
     (hfit : -2147483648 ≤ o + n ∧ o + n < 2147483648) :
     0 ≤ (bit_advance b o n).2 ∧ (bit_advance b o n).2 < 8
     ∧ (bit_advance b o n).1 * 8 + (bit_advance b o n).2 = b * 8 + o + n := by
-  unfold bit_advance
-  simp only []
+  rw [C03_kernel_bit_advance]
   have e : (o + n + 2147483648) % 4294967296 - 2147483648 = o + n := by omega
-  rw [e]
+  simp only [e]
   have h1 := Int.tmod_add_mul_tdiv (o + n) 8
   have h2 : -8 < (o + n).tmod 8 := Int.lt_tmod_of_pos _ (by decide)
   have h3 : (o + n).tmod 8 < 8 := Int.tmod_lt_of_pos _ (by decide)
@@ -346,8 +431,7 @@ theorem C03_bit_advance_narrowing_witness :
 theorem C03_bit_increment_spec (b o s : Int) (ho : 0 ≤ o) (hs : 0 ≤ s) :
     0 ≤ (bit_increment b o s).2 ∧ (bit_increment b o s).2 < 8
     ∧ (bit_increment b o s).1 * 8 + (bit_increment b o s).2 = b * 8 + o + s := by
-  unfold bit_increment
-  simp only []
+  rw [C03_kernel_bit_increment]
   rw [Int.tmod_eq_emod_of_nonneg (by omega), Int.tdiv_eq_ediv_of_nonneg (by omega)]
   omega
 
@@ -363,7 +447,7 @@ theorem C03_bit_laws (b o n m : Int) (ho : 0 ≤ o) (ho' : o < 8)
   obtain ⟨c0, c1, c2⟩ := C03_bit_advance_spec b o (n + m) (by omega)
   obtain ⟨d0, d1, d2⟩ := C03_bit_advance_spec (bit_advance b o n).1 (bit_advance b o n).2 (-n) (by omega)
   obtain ⟨e0, e1, e2⟩ := C03_bit_advance_spec (bit_advance b o n).1 (bit_advance b o n).2 m (by omega)
-  refine ⟨by unfold bit_distance_to; omega, ?_, ?_⟩
+  refine ⟨by rw [C03_kernel_bit_distance_to]; omega, ?_, ?_⟩
   · ext <;> omega
   · ext <;> omega
 
@@ -371,10 +455,10 @@ theorem C03_bit_laws (b o n m : Int) (ho : 0 ≤ o) (ho' : o < 8)
 theorem C03_bit_iterator_laws (b o k s : Int) (ho : 0 ≤ o) (ho' : o < 8) (hs : 0 < s)
     (hfit : -2147483640 ≤ k * s ∧ k * s < 2147483640) :
     bitit_distance (bit_distance_to b o (bit_advance b o (bitit_advance_bits k s)).1 (bit_advance b o (bitit_advance_bits k s)).2) s = k := by
-  unfold bitit_distance bitit_advance_bits
+  simp only [C03_kernel_bitit_distance, C03_kernel_bitit_advance_bits]
   obtain ⟨a0, a1, a2⟩ := C03_bit_advance_spec b o (k * s) (by omega)
   have : bit_distance_to b o (bit_advance b o (k * s)).1 (bit_advance b o (k * s)).2 = k * s := by
-    unfold bit_distance_to; omega
+    rw [C03_kernel_bit_distance_to]; omega
   rw [this, Int.mul_tdiv_cancel _ (by omega)]
 
 /-! ## Part B -- the model of image_view's navigation paths -/
@@ -395,7 +479,7 @@ theorem C03_memAdvance_bit (k : Kind) (p d : Int) (hfit : -2147483640 ≤ d ∧ 
   · simp [hk]
 
 private theorem xInc_byte (k : Kind) (hk : k.bit = false) (xs p : Int) : xInc k xs p = p + xs := by
-  unfold xInc; simp [hk, memAdvance, step_advance]
+  unfold xInc; simp [hk, memAdvance, C03_kernel_step_advance]
 
 /-- **all navigation paths agree** (byte-addressed and virtual views: pointer, planar, packed,
     step, position iterators).  For every view record (any base, any steps of either sign, padded
@@ -412,14 +496,14 @@ theorem C03_paths_agree (k : Kind) (hk : k.bit = false) (v : View) (x y cx cy : 
   have hw0 : v.w ≠ 0 := by omega
   have mA := memAdvance_byte k hk
   refine ⟨?_, ?_, ?_, ?_, ?_, ?_, ?_⟩
-  · simp only [pathCall, Loc.move, View.loc, mA, loc_offset, View.addr]; ring
-  · simp only [pathRow, xAdv, Loc.move, View.loc, mA, loc_offset, step_advance, View.addr]; ring
-  · simp only [pathCol, yAdv, Loc.move, View.loc, mA, loc_offset, step_advance, View.addr]; ring
+  · simp only [pathCall, Loc.move, View.loc, mA, C03_kernel_loc_offset, View.addr]; ring
+  · simp only [pathRow, xAdv, Loc.move, View.loc, mA, C03_kernel_loc_offset, C03_kernel_step_advance, View.addr]; ring
+  · simp only [pathCol, yAdv, Loc.move, View.loc, mA, C03_kernel_loc_offset, C03_kernel_step_advance, View.addr]; ring
   · have e := C03_advance_closed (y * v.w + x) 0 0 v.w 0 0 x y hw (by omega) hw hx0 hx1 (by ring)
-    simp only [pathBegin, It.advance, View.begin, e, hw0, if_false, Loc.move, View.loc, mA, loc_offset, View.addr]; ring
+    simp only [pathBegin, It.advance, View.begin, e, hw0, if_false, Loc.move, View.loc, mA, C03_kernel_loc_offset, View.addr]; ring
   · have e1 := C03_advance_closed (y * v.w) 0 0 v.w 0 0 0 y hw (by omega) hw (by omega) hw (by ring)
     have e2 := C03_advance_closed x 0 y v.w 0 0 x y hw (by omega) hw hx0 hx1 (by ring)
-    simp only [pathAt, It.advance, View.begin, e1, e2, hw0, if_false, Loc.move, View.loc, mA, loc_offset, View.addr]; ring
+    simp only [pathAt, It.advance, View.begin, e1, e2, hw0, if_false, Loc.move, View.loc, mA, C03_kernel_loc_offset, View.addr]; ring
   · have e1 := C03_advance_closed (v.w * v.h) 0 0 v.w 0 0 0 v.h hw (by omega) hw (by omega) hw (by ring)
     by_cases hc : x + 1 < v.w
     · have e2 := C03_advance_closed (-(v.w * v.h - 1 - (y * v.w + x))) 0 v.h v.w 0 0 (x + 1) y hw (by omega) hw (by omega) hc (by ring)
@@ -428,7 +512,7 @@ theorem C03_paths_agree (k : Kind) (hk : k.bit = false) (v : View) (x y cx cy : 
             C03_advance_closed (-1) (x + 1) y v.w 0 0 x y hw (by omega) hc hx0 hx1 (by ring)]
         ext <;> simp only [] <;> omega
       simp only [pathRbegin, View.endIt, View.size, It.advance, It.dec, View.begin, e1, e2, hw0, if_false, Loc.move,
-        View.loc, mA, loc_offset, View.addr, xDec, step_advance, hd, and_self, if_true]
+        View.loc, mA, C03_kernel_loc_offset, View.addr, xDec, C03_kernel_step_advance, hd, and_self, if_true]
       ring
     · have hxw : x = v.w - 1 := by omega
       have e2 := C03_advance_closed (-(v.w * v.h - 1 - (y * v.w + x))) 0 v.h v.w 0 0 0 (y + 1) hw (by omega) hw (by omega) hw
@@ -439,9 +523,9 @@ theorem C03_paths_agree (k : Kind) (hk : k.bit = false) (v : View) (x y cx cy : 
         ext <;> simp only [] <;> omega
       have hne : ¬ (v.w - 1 = -1 ∧ (-1 : Int) = 0) := by omega
       simp only [pathRbegin, View.endIt, View.size, It.advance, It.dec, View.begin, e1, e2, hw0, if_false, Loc.move,
-        View.loc, mA, loc_offset, View.addr, xDec, step_advance, hd, hne]
+        View.loc, mA, C03_kernel_loc_offset, View.addr, xDec, C03_kernel_step_advance, hd, hne]
       subst hxw; ring
-  · simp only [pathCached, Loc.move, View.loc, mA, loc_offset, View.addr]; ring
+  · simp only [pathCached, Loc.move, View.loc, mA, C03_kernel_loc_offset, View.addr]; ring
 
 /-- non-vacuity: a 3x2 view with padded rows (row stride 16, pixel 4 bytes) flipped left-right -/
 example : (Xform.flipLR.apply { base := 0, xs := 4, ys := 16, w := 3, h := 2 }).InRange 2 1
@@ -462,19 +546,19 @@ theorem C03_paths_agree_bit (k : Kind) (v : View) (x y : Int) (hr : v.InRange x 
   have s_x0 := hsmall x 0 (by omega) (by omega) (by omega) (by omega)
   simp only [Int.zero_mul, Int.add_zero, Int.zero_add] at s_0y s_x0
   refine ⟨?_, ?_, ?_, ?_, ?_⟩
-  · simp only [pathCall, Loc.move, View.loc, loc_offset]
+  · simp only [pathCall, Loc.move, View.loc, C03_kernel_loc_offset]
     rw [C03_memAdvance_bit k _ _ s_xy]; simp only [View.addr]; try ring
-  · simp only [pathRow, xAdv, Loc.move, View.loc, loc_offset, step_advance, Int.zero_mul, Int.add_zero, Int.zero_add]
+  · simp only [pathRow, xAdv, Loc.move, View.loc, C03_kernel_loc_offset, C03_kernel_step_advance, Int.zero_mul, Int.add_zero, Int.zero_add]
     rw [C03_memAdvance_bit k _ _ s_0y, C03_memAdvance_bit k _ _ s_x0]; simp only [View.addr]; try ring
-  · simp only [pathCol, yAdv, Loc.move, View.loc, loc_offset, step_advance, Int.zero_mul, Int.add_zero, Int.zero_add]
+  · simp only [pathCol, yAdv, Loc.move, View.loc, C03_kernel_loc_offset, C03_kernel_step_advance, Int.zero_mul, Int.add_zero, Int.zero_add]
     rw [C03_memAdvance_bit k _ _ s_x0, C03_memAdvance_bit k _ _ s_0y]; simp only [View.addr]; try ring
   · have e := C03_advance_closed (y * v.w + x) 0 0 v.w 0 0 x y hw (by omega) hw hx0 hx1 (by ring)
-    simp only [pathBegin, It.advance, View.begin, e, hw0, if_false, Loc.move, View.loc, loc_offset]
+    simp only [pathBegin, It.advance, View.begin, e, hw0, if_false, Loc.move, View.loc, C03_kernel_loc_offset]
     rw [C03_memAdvance_bit k _ _ (by simpa using s_xy)]
     simp only [View.addr]; ring
   · have e1 := C03_advance_closed (y * v.w) 0 0 v.w 0 0 0 y hw (by omega) hw (by omega) hw (by ring)
     have e2 := C03_advance_closed x 0 y v.w 0 0 x y hw (by omega) hw hx0 hx1 (by ring)
-    simp only [pathAt, It.advance, View.begin, e1, e2, hw0, if_false, Loc.move, View.loc, loc_offset,
+    simp only [pathAt, It.advance, View.begin, e1, e2, hw0, if_false, Loc.move, View.loc, C03_kernel_loc_offset,
       Int.zero_add, Int.sub_zero, Int.sub_self, Int.zero_mul, Int.add_zero]
     rw [C03_memAdvance_bit k _ _ s_0y, C03_memAdvance_bit k _ _ s_x0]; simp only [View.addr]; try ring
 
@@ -501,11 +585,11 @@ theorem C03_moves (k : Kind) (hk : k.bit = false) (l : Loc) (ms : List Move) :
       obtain ⟨h1, h2, h3⟩ := h
       rw [h1, h2, h3]
       cases m <;>
-        simp only [Move.run, Loc.move, xAdv, yAdv, xInc_byte k hk, xDec, mA, loc_offset, step_advance, sumMoves, Move.delta, and_true] <;>
+        simp only [Move.run, Loc.move, xAdv, yAdv, xInc_byte k hk, xDec, mA, C03_kernel_loc_offset, C03_kernel_step_advance, sumMoves, Move.delta, and_true] <;>
         ring
   obtain ⟨h1, h2, h3⟩ := main ms l
   refine ⟨h1, h2, h3, ?_⟩
-  rw [h1]; simp only [Loc.move, mA, loc_offset]; ring
+  rw [h1]; simp only [Loc.move, mA, C03_kernel_loc_offset]; ring
 
 example : (runMoves ⟨false, false, 0, false⟩ ⟨100, 3, 40⟩ [.add 2 1, .xdec, .yadd (-3), .subm 1 (-1), .xinc]).pos = 100 + (-1) * 40 + 1 * 3 := by decide
 
